@@ -6,6 +6,7 @@ from lib.facts import CallGraph, find, walk, is_node, path_of, render, render_st
 from lib.mirq import Slice, calls_matching, result_exits, edge_dominates, Inlined, EmptinessObservers, follow_emptiness
 from lib.nullable import Nullability
 from lib import fxn as X
+from lib.locals import local_inits as _local_inits, through_locals as _through_locals
 
 TECHNIQUE = ("call-graph purity from parser::parse (with a positive control), MIR dominance of the remaining-input and error-log tests over the Ok exit, "
              "who-may-write for ParseString.cursor plus a sibling rule on the column/row bookkeeping, possibly-empty merge_tokens().unwrap() detection, and a "
@@ -166,6 +167,7 @@ def run(F, rep, tier):
                     continue
                 n_loops += 1
                 N.last_rebinds = None
+                N.fn_inits = _local_inits(it["body"])
                 ev = N.loop_progress(n)
                 key = "%s:%s" % (it["name"], kind)
                 if ev:
@@ -186,35 +188,6 @@ def run(F, rep, tier):
     run_r9(F, rep)
     run_r10(F, rep)
     run_r11(F, rep)
-
-
-def _local_inits(body):
-    """name -> initialiser of `let name = init` where the name is bound exactly once in the function body"""
-    seen = defaultdict(list)
-    for st in find(body, "let"):
-        if len(st) >= 3 and is_node(st[1]):
-            p = st[1]
-            if p[0] == "ptype":
-                p = p[1]
-            if is_node(p) and p[0] == "pident" and st[2] is not None:
-                seen[p[1]].append(st[2])
-            else:
-                for q in find(st[1], "pident"):
-                    seen[q[1]].append(None)
-    return {k: v[0] for k, v in seen.items() if len(v) == 1 and v[0] is not None}
-
-
-def _through_locals(e, inits, depth=4):
-    """follow a plain local back to the expression it was initialised with (`let n = gs.len(); .. += n`)"""
-    while depth > 0 and is_node(e):
-        if e[0] == "paren":
-            e = e[1]
-        elif e[0] == "path" and e[1] in inits:
-            e = inits[e[1]]
-        else:
-            break
-        depth -= 1
-    return e
 
 
 def run_r3(syn_items, rep):
@@ -590,7 +563,7 @@ def run_r10(F, rep):
                 continue
             if k is not None:
                 n_const += 1
-                lb = G.len_lower_bound(facts, base)
+                lb = G.len_lower_bound_ext(facts, base, inits10)
                 ok = lb > k
                 # key: function + index (+ occurrence), no local names
                 n_key[k] += 1
@@ -621,7 +594,7 @@ def run_r10(F, rep):
                     n_unw_other += 1
                     continue
                 n_unw += 1
-                lb = G.len_lower_bound(facts, recv[1])
+                lb = G.len_lower_bound_ext(facts, recv[1], _local_inits(it["body"]))
                 n_key[recv[2]] += 1
                 rep.check(lb >= 1, "C09-R10", "unwrap:%s:%s()%s" % (it["name"], recv[2], "#%d" % n_key[recv[2]] if n_key[recv[2]] > 1 else "") + ("" if lb >= 1 else ":unguarded"),
                           "%s unwraps %s with no guard implying %s is non-empty on that path: the parser panics instead of reporting an error" % (it["name"], render(recv), render(recv[1])), where)
